@@ -274,13 +274,16 @@ func (e *Equation) Append(buf []byte, parens bool) []byte {
 			}
 		default:
 			if e.left != nil {
-				buf = e.left.Append(buf, e.left.o != nil && e.left.o.prec >= e.o.prec)
+				// A ! as left operand would capture the operator when read back.
+				buf = e.left.appendOperand(buf, e.left.o != nil && (e.left.o.prec >= e.o.prec || e.left.o.code == not.code))
 			}
 			buf = append(buf, ' ')
 			buf = append(buf, e.o.name...)
 			buf = append(buf, ' ')
 			if e.right != nil {
-				buf = e.right.Append(buf, e.left.o != nil && e.left.o.prec >= e.o.prec)
+				// Equal precedence is read back left to right so the right
+				// operand keeps its parenthesis.
+				buf = e.right.appendOperand(buf, e.right.o != nil && e.right.o.prec >= e.o.prec)
 			}
 		}
 	}
@@ -288,6 +291,17 @@ func (e *Equation) Append(buf []byte, parens bool) []byte {
 		buf = append(buf, ')')
 	}
 	return buf
+}
+
+// appendOperand appends the equation as an operand, with parenthesis if asked
+// for. Unlike Append a ! operator is wrapped as well.
+func (e *Equation) appendOperand(buf []byte, parens bool) []byte {
+	if parens && e.o != nil && e.o.code == not.code {
+		buf = append(buf, '(')
+		buf = e.Append(buf, false)
+		return append(buf, ')')
+	}
+	return e.Append(buf, parens)
 }
 
 func (e *Equation) appendValue(buf []byte, v any) []byte {
